@@ -51,6 +51,17 @@ func CanonOpt(v any, maskIdxOfTypes map[string]bool, sortSlices bool) string {
 	return sb.String()
 }
 
+// CanonSkipSorted: every slice rendered as a sorted multiset and the named fields rendered as "_".
+func CanonSkipSorted(v any, skip ...string) string {
+	var sb strings.Builder
+	c := canoner{skip: map[string]bool{}, sortSlices: true}
+	for _, s := range skip {
+		c.skip[s] = true
+	}
+	c.enc(&sb, reflect.ValueOf(v), 0)
+	return sb.String()
+}
+
 var (
 	timeType  = reflect.TypeOf(time.Time{})
 	protoType = reflect.TypeOf((*proto.Message)(nil)).Elem()
